@@ -64,6 +64,7 @@ def cnum(name):
 
 
 def gibtp(i, pid, proofhash):
+    pid = i.get("_ibid", pid)        # content number of IBTPs judged by the content-sensitive rule
     fb, fc, _ = i["from"].split(":")
     tb, tc, _ = i["to"].split(":")
     return ("{| ib_id := %s; ib_from_bxh := %s; ib_from_chain := %s; ib_to_bxh := %s; ib_to_chain := %s; ib_is_req := %s; ib_proofhash := %s |}" % (
@@ -348,6 +349,50 @@ def gen_logout(r, nm, script, junk, ledger, pipelined):
     script.append(("check", dict(tx=j["tx"], pdesc=j["pdesc"]), None))
     script.append(("block", [junk("after_block")], {}))
     return dict(cfg=dict(admins=4, gas=0, audit=False, bal="1000000000000000", ledger=ledger), script=script, governed="logout", pipelined=pipelined)
+
+
+def gen_content_rule(nm, ledger="", restart=False, proof_type=""):
+    """a CONTENT-SENSITIVE rule: chainS is bound to the built-in simulated-fabric rule, its trust root is the certificate
+    of the chain's endorsing key, and proofs are really endorsed out-messages (index, function, arguments).  A genuine
+    IBTP passes the proof check (once refused afterwards: it overtook its predecessor); then a DIFFERENT IBTP with the
+    same from-to-index and the very same proof bytes (other call arguments) is presented - before and after the
+    predecessor arrived - and finally the genuine one again.  Only the genuine content may pass, on a node that has
+    seen the proof before as on a restarted one."""
+    script = [("pre", s) for s in X.SEED2]
+    script += [("pre", {"op": "seed_chain", "chain": "chainS", "rule": "simfab", "fabcert": True}),
+               ("pre", {"op": "seed_service", "chain": "chainS", "svc": "svc1", "ordered": True}),
+               ("pre", {"op": "fund", "acct": "u:0", "amt": "10000000000000"}), ("pre", {"op": "fund", "acct": "u:1", "amt": "10000000000000"}), ("block", [], {})]
+    serial = [0]
+    classes, labels = {}, {}
+
+    def op(frm, idx, args, label, fresh, handles):
+        """IBTP chainS -> chainB #idx calling interchainCharge(args); proof: endorsed for [label]'s message (fresh: built
+        now for (idx, args); else the bytes remembered under the label)"""
+        serial[0] += 1
+        cls = classes.setdefault((idx, tuple(args)), len(classes) + 1)
+        i = X.ibtp(idx, frm="1356:chainS:svc1", to="1356:chainB:svc1", payload="content:interchainCharge:" + ":".join(args))
+        i["_ibid"] = 1000 * cls + serial[0]
+        if fresh:
+            labels[label] = 2000000 + 1000 * cls + len(labels)
+            proof = {"kind": "fabric", "signer": "chainS", "mindex": idx, "mfunc": "interchainCharge", "margs": list(args), "label": label}
+        else:
+            proof = {"kind": "reuse", "label": label}
+        pnum = labels[label]
+        txi = {k: v for k, v in i.items() if not k.startswith("_")}
+        prog = ("ev", [(cnum("chainB"), False)], ("done",)) if handles else ("fail", False)
+        return dict(tx={"t": "ibtp", "from": frm, "ibtp": txi, "proof": proof}, frm=frm, body=("ibtp", prog), invalid=False,
+                    tag="content_rule_%s" % ("genuine" if (2000000 + 1000 * cls) // 1000 == pnum // 1000 else "forged"),
+                    pdesc=dict(ibtp=i, pnum=pnum, proofhash=pnum, proof=proof))
+    A, B = ["A", "1"], ["B", "9"]
+    script.append(("block", [op("u:0", 2, A, "p2", True, False)], {}))           # proof fine, index not due: refused by the contract
+    script.append(("block", [op("u:1", 2, B, "p2", False, False)], {}))          # same name, same proof, other arguments
+    script.append(("block", [op("u:0", 1, A, "p1", True, True)], {}))
+    if restart:
+        script.append(("restart",))
+    script.append(("block", [op("u:1", 2, B, "p2", False, True), X.op_store_set(X.Ids(), "u:1", "k1", 5)], {}))
+    script.append(("block", [op("u:0", 2, A, "p2", False, True)], {}))
+    script.append(("block", [op("u:1", 3, B, "p2", False, True), op("u:0", 3, A, "p3", True, True)], {}))
+    return dict(cfg=dict(admins=4, gas=0, audit=False, bal="1000000000000000", ledger=ledger, proof=proof_type), script=script, content_rule=[ledger, restart, proof_type])
 
 
 def gen_parallel(nm, size):
@@ -797,6 +842,8 @@ def run(ctx):
         fitems = [gen_forged_receipts(nm, dst, pk, pt) for dst, pk in (("chainB", "absent"), ("chainB", "mismatch"), ("chainF", "ok"), ("chainW", "ok"), ("chainN", "ok"))
                   for pt in ("", "parallel")]
         pitems += fitems
+        citems = [gen_content_rule(nm, l, rs, pt) for l, rs, pt in (("", False, ""), ("", True, ""), ("complex", False, ""), ("", False, "parallel"))]
+        pitems += citems
         pitems += [resolve_script(gen_proof_history(ctx.rng, ctx.quick, nm)) for _ in range(100 if ctx.quick else 1500)]
         mitems = gen_multisig(ctx.rng, ctx.quick, nm) + gitems        # the governed histories also contain direct CheckProof steps
         eitems = gen_entry(ctx.rng, ctx.quick)
@@ -809,6 +856,7 @@ def run(ctx):
         ctx.extra["governed_rule_histories"] = len(gitems)
         ctx.extra["rule_update_histories"] = len(uitems)
         ctx.extra["forged_receipt_histories"] = len(fitems)
+        ctx.extra["content_rule_histories"] = len(citems)
         ctx.extra["parallel_grouping_blocks"] = sum(range(6, 14))
         # --- proof defects through block execution
         flat = []
